@@ -244,6 +244,25 @@ pub fn wdec(ctx: &mut Ctx, plan: DecPlan) {
         judge_input(ctx, "valid-again", &bytes, nt);
     }
     if plan.both_keys && !cfg!(miri) {
+        // records with many short keys whose lexicographic order differs from any length-first order
+        for (i, scheme) in [Scheme::Secp, Scheme::Ed, Scheme::Toy].into_iter().enumerate() {
+            if !ctx.mine(900 + i as u64) {
+                continue;
+            }
+            for variant in 0..3u64 {
+                let mut rec = Rec::minimal(pool(scheme)[variant as usize % pool(scheme).len()], 40 + variant);
+                for k in [&b"a"[..], b"aa", b"ab", b"b", b"ba", b"eth2", b"attnets", b"z", b"zz", b"A", b"~", b"\x01", b"i", b"j", b"secp", b"secp256k10"] {
+                    rec.map.insert(k.to_vec(), Item::S(vec![k.len() as u8; (variant as usize + k.len()) % 3]));
+                }
+                if rec.size() <= 300 {
+                    let bytes = rec.bytes();
+                    judge_input(ctx, "valid-many-keys", &bytes, t);
+                    for (cls, m) in gen::structural_mutants(&rec, &mut rng_for(ctx.seed, &["many-keys"], variant)) {
+                        judge_input(ctx, cls, &m, nt);
+                    }
+                }
+            }
+        }
         both_keys(ctx);
         negated_key_pairs(ctx);
         ed_small_order(ctx);
